@@ -29,3 +29,79 @@ package generator
 //@   loop 1 index n
 //@   loop 1 invariant out == emitted(contents(decls), n)
 //@   loop 1 invariant forall s string :: keys[s] <==> (exists j int :: 0 <= j && j < n && decls[j].ID == s)
+
+// ---------------------------------------------------------------- C20
+
+// the four cached probe results (and the booleans they point to) are shared between goroutines
+// and protected by Formatters.lock
+//@ guarded Formatters.hasGoFmt by lock
+//@ guarded Formatters.hasDartFmt by lock
+//@ guarded Formatters.hasTsFmt by lock
+//@ guarded Formatters.hasPsqlFmt by lock
+
+// no formatter process is started
+//@ pred noFormatRun() bool = runs("goimports -w %") == old(runs("goimports -w %")) && runs("dart format %") == old(runs("dart format %")) && runs("npx prettier --write %") == old(runs("npx prettier --write %")) && runs("pg_format -i %") == old(runs("pg_format -i %"))
+
+//@ func (*Formatters).hasGo
+//@   props C20
+//@   requires fmts != nil && !held(fmts)
+//@   modifies runs("which goimports"), lasterr("which goimports"), fmts.hasGoFmt
+//@   ensures fmts.hasGoFmt != nil && result == deref(fmts.hasGoFmt)
+//@   -- probed only when no result is cached: at most once per cache, since a cached result is never dropped (write-once)
+//@   ensures runs("which goimports") == old(runs("which goimports")) + ite(atlock(fmts.hasGoFmt) == nil, 1, 0)
+//@   ensures atlock(fmts.hasGoFmt) != nil ==> fmts.hasGoFmt == atlock(fmts.hasGoFmt) && result == atlock(deref(fmts.hasGoFmt))
+//@   ensures atlock(fmts.hasGoFmt) == nil ==> (result <==> lasterr("which goimports") == nil)
+//@   ensures noFormatRun()
+
+//@ func (*Formatters).hasDart
+//@   props C20
+//@   requires fmts != nil && !held(fmts)
+//@   modifies runs("dart format --help"), lasterr("dart format --help"), fmts.hasDartFmt
+//@   ensures fmts.hasDartFmt != nil && result == deref(fmts.hasDartFmt)
+//@   ensures runs("dart format --help") == old(runs("dart format --help")) + ite(atlock(fmts.hasDartFmt) == nil, 1, 0)
+//@   ensures atlock(fmts.hasDartFmt) != nil ==> fmts.hasDartFmt == atlock(fmts.hasDartFmt) && result == atlock(deref(fmts.hasDartFmt))
+//@   ensures atlock(fmts.hasDartFmt) == nil ==> (result <==> lasterr("dart format --help") == nil)
+//@   ensures noFormatRun()
+
+//@ func (*Formatters).hasTypescript
+//@   props C20
+//@   requires fmts != nil && !held(fmts)
+//@   modifies runs("npx prettier -v"), lasterr("npx prettier -v"), fmts.hasTsFmt
+//@   ensures fmts.hasTsFmt != nil && result == deref(fmts.hasTsFmt)
+//@   ensures runs("npx prettier -v") == old(runs("npx prettier -v")) + ite(atlock(fmts.hasTsFmt) == nil, 1, 0)
+//@   ensures atlock(fmts.hasTsFmt) != nil ==> fmts.hasTsFmt == atlock(fmts.hasTsFmt) && result == atlock(deref(fmts.hasTsFmt))
+//@   ensures atlock(fmts.hasTsFmt) == nil ==> (result <==> lasterr("npx prettier -v") == nil)
+//@   ensures noFormatRun()
+
+//@ func (*Formatters).hasPsql
+//@   props C20
+//@   requires fmts != nil && !held(fmts)
+//@   modifies runs("pg_format -v"), lasterr("pg_format -v"), fmts.hasPsqlFmt
+//@   ensures fmts.hasPsqlFmt != nil && result == deref(fmts.hasPsqlFmt)
+//@   ensures runs("pg_format -v") == old(runs("pg_format -v")) + ite(atlock(fmts.hasPsqlFmt) == nil, 1, 0)
+//@   ensures atlock(fmts.hasPsqlFmt) != nil ==> fmts.hasPsqlFmt == atlock(fmts.hasPsqlFmt) && result == atlock(deref(fmts.hasPsqlFmt))
+//@   ensures atlock(fmts.hasPsqlFmt) == nil ==> (result <==> lasterr("pg_format -v") == nil)
+//@   ensures noFormatRun()
+
+// one request: the formatter of the requested format runs exactly once when its tool is present, and its
+// error is what the caller gets; when the tool is absent (or the format is unknown) no process is started,
+// the file is not touched by this function and the request succeeds
+//@ func (*Formatters).FormatFile
+//@   props C20
+//@   requires fr != nil && !held(fr)
+//@   modifies G$runs, G$lasterr, fr.hasGoFmt, fr.hasDartFmt, fr.hasTsFmt, fr.hasPsqlFmt
+//@   ensures format == Go && deref(fr.hasGoFmt) ==> runs("goimports -w %") == old(runs("goimports -w %")) + 1 && result == lasterr("goimports -w %")
+//@   ensures format == Go && !deref(fr.hasGoFmt) ==> runs("goimports -w %") == old(runs("goimports -w %")) && result == nil
+//@   ensures format != Go ==> runs("goimports -w %") == old(runs("goimports -w %"))
+//@   ensures format == Dart && deref(fr.hasDartFmt) ==> runs("dart format %") == old(runs("dart format %")) + 1 && result == lasterr("dart format %")
+//@   ensures format == Dart && !deref(fr.hasDartFmt) ==> runs("dart format %") == old(runs("dart format %")) && result == nil
+//@   ensures format != Dart ==> runs("dart format %") == old(runs("dart format %"))
+//@   ensures format == TypeScript && deref(fr.hasTsFmt) ==> runs("npx prettier --write %") == old(runs("npx prettier --write %")) + 1 && result == lasterr("npx prettier --write %")
+//@   ensures format == TypeScript && !deref(fr.hasTsFmt) ==> runs("npx prettier --write %") == old(runs("npx prettier --write %")) && result == nil
+//@   ensures format != TypeScript ==> runs("npx prettier --write %") == old(runs("npx prettier --write %"))
+//@   ensures format == Psql && deref(fr.hasPsqlFmt) ==> runs("pg_format -i %") == old(runs("pg_format -i %")) + 1 && result == lasterr("pg_format -i %")
+//@   ensures format == Psql && !deref(fr.hasPsqlFmt) ==> runs("pg_format -i %") == old(runs("pg_format -i %")) && result == nil
+//@   ensures format != Psql ==> runs("pg_format -i %") == old(runs("pg_format -i %"))
+//@   ensures format != Go && format != Dart && format != TypeScript && format != Psql ==> result == nil
+//@   -- at most one probe per tool and request
+//@   ensures runs("which goimports") <= old(runs("which goimports")) + 1 && runs("dart format --help") <= old(runs("dart format --help")) + 1 && runs("npx prettier -v") <= old(runs("npx prettier -v")) + 1 && runs("pg_format -v") <= old(runs("pg_format -v")) + 1
